@@ -5,7 +5,7 @@ import sys
 
 from .. import engine as E
 from .. import gen as G
-from ..oracle import M, P10, canonical_str
+from ..oracle import M, P10, canonical_str, parse_literal
 from . import common as C
 
 ID = "C07"
@@ -25,6 +25,15 @@ N_RANDOM = {"quick": 5000, "thorough": 20000}
 
 def check(toks, resp, mode, build):
     op = toks[0]
+    if op == "serde_de":
+        # JSON string -> Decimal goes through the same parser: accept exactly what from_str accepts
+        js = E.unhex(toks[1])
+        exp = parse_literal(js[1:-1])
+        if exp[0] == "ok":
+            want = "V %d %d" % (exp[1], exp[2])
+        else:
+            want = "E de"
+        return ("ok" if resp.raw == want else "viol"), "serde_de." + exp[0], True, want
     if op == "parse":
         # the request carries the canonical text; (c, s) is recovered from it by the oracle
         text = E.unhex(toks[1])
@@ -75,6 +84,9 @@ def gen(rng, tier, shard, batch):
         if _CON is None:
             _CON = constructed(random.Random(20260107))
         reqs += _CON[shard::E.NCPU]
+    for lit in ("1e3", "1.50", " 1", "", "+7", "-0.000", "1e-19", ".5", "5.", "170141183460469231731687303715884105728",
+                "0.1234567890123456789", "1_0", "0x10", "-1.5E+2"):
+        reqs.append("serde_de " + E.hexs('"' + lit + '"'))
     for _ in range(N_RANDOM[tier]):
         a, p = G.dec(rng)
         k = rng.random()
